@@ -51,6 +51,11 @@ public:
   void dump();
 
   MemoryPage *pages;
+
+#ifdef NAKEN_ASM_VERIF
+  // Verification hook: bytes of the image that pass 2 never wrote.
+  uint32_t verif_count_pass1(uint32_t *first);
+#endif
   uint32_t low_address;
   uint32_t high_address;
   uint32_t entry_point;
